@@ -1,4 +1,5 @@
 import QF.Core.Conc
+import QF.Props.C01Ops
 /-!
 # C11 — concurrent use
 
@@ -20,5 +21,27 @@ theorem interleaving_deterministic {α : Type} (base : Nat) (σ : List Nat) (sh 
           (H.runSched base σ sh ts).snd.fst[i]? = some (H.alone base sh (H.count i σ) t)) ∧
         ∀ (i : Nat) (id : H.Id), (i, H.Ev.write id) ∈ (H.runSched base σ sh ts).snd.snd → base ≤ id :=
   H.interleaving_deterministic base σ sh ts h
+
+/-- The same for the operation models of C01 (`Op`: sort, filter, slice, setColumn, copy, apply, distinct, groupBy,
+aggregate — each proved to write only arrays it allocates): any multiset of them started together on the same shared
+store, under every schedule, leaves the shared store untouched, performs no write to a shared array (no write/write
+or read/write conflict is possible, all conflicting accesses need a write to a shared array), and each of them is in
+the state it reaches alone after the same number of its own steps. -/
+theorem ops_interleaving_deterministic (base : Nat) (σ : List Nat) (sh : H.Store) (ops : List QF.Props.C01.Op) :
+    let ts : List (H.Thread Unit) := ops.map (fun op => { prog := op.prog })
+    (H.runSched base σ sh ts).fst = sh ∧
+      (∀ (i : Nat) (t : H.Thread Unit), ts[i]? = some t →
+          (H.runSched base σ sh ts).snd.fst[i]? = some (H.alone base sh (H.count i σ) t)) ∧
+        ∀ (i : Nat) (id : H.Id), (i, H.Ev.write id) ∈ (H.runSched base σ sh ts).snd.snd → base ≤ id := by
+  intro ts
+  apply H.interleaving_deterministic
+  intro t ht
+  obtain ⟨op, _, rfl⟩ := List.mem_map.mp ht
+  exact QF.Props.C01.op_own_writes op base
+
+/-- non-vacuity: two operations of the C01 example history as threads under an alternating schedule -/
+example : (H.runSched 4 [0, 1, 0, 1, 1, 0, 0, 1] QF.Props.C01.store1
+    ((QF.Props.C01.history1.take 2).map (fun op => ({ prog := op.prog } : H.Thread Unit)))).fst = QF.Props.C01.store1 :=
+  (ops_interleaving_deterministic 4 _ _ _).1
 
 end QF.Props.C11
